@@ -20,6 +20,48 @@ use std::sync::{
 };
 use std::time::Instant;
 
+#[cfg(rce_verif)]
+pub mod verif {
+    //! Verification hooks (add-only): cache write observer, cache-off switch, schedule points.
+    use super::{Bounds, Ply, TTEntry};
+    use std::sync::atomic::{AtomicBool, Ordering};
+    use std::sync::Mutex;
+
+    /// One observed cache write: (key, score, depth, bound, best move, nodes, node budget, running flag).
+    pub type Write = (u64, i16, u8, u8, Ply, u64, Option<u64>, bool);
+    pub static TRACE: Mutex<Option<Vec<Write>>> = Mutex::new(None);
+    pub static CACHE_OFF: AtomicBool = AtomicBool::new(false);
+
+    pub fn observe(key: u64, entry: &TTEntry, nodes: u64, budget: Option<u64>, running: bool) {
+        if let Ok(mut guard) = TRACE.lock() {
+            if let Some(v) = guard.as_mut() {
+                let bound = match entry.bound {
+                    Bounds::Exact => 0,
+                    Bounds::Lower => 1,
+                    Bounds::Upper => 2,
+                };
+                v.push((key, entry.score, entry.depth, bound, entry.best_ply, nodes, budget, running));
+            }
+        }
+    }
+
+    pub fn cache_off() -> bool {
+        CACHE_OFF.load(Ordering::Relaxed)
+    }
+
+    /// A labelled schedule point: sleeps for RCE_VERIF_SLEEP_<LABEL> milliseconds if set, and
+    /// reports on stderr that it fired, so a chosen interleaving can be forced on the real binary.
+    pub fn schedule_point(label: &str) {
+        if let Ok(v) = std::env::var(format!("RCE_VERIF_SLEEP_{label}")) {
+            if let Ok(ms) = v.parse::<u64>() {
+                eprintln!("verif-point {label} begin");
+                std::thread::sleep(std::time::Duration::from_millis(ms));
+                eprintln!("verif-point {label} end");
+            }
+        }
+    }
+}
+
 pub type Depth = u8;
 pub type Score = i16;
 pub type NodeCount = u64;
@@ -109,7 +151,11 @@ impl Search {
     /// ```
     pub fn search(&mut self, evaluator: &impl Evaluator, max_depth: Option<Depth>) {
         // Uses a heuristic to determine the maximum time to spend on a move
+        #[cfg(rce_verif)]
+        verif::schedule_point("SEARCH_ENTRY");
         self.start();
+        #[cfg(rce_verif)]
+        verif::schedule_point("SEARCH_ARMED");
 
         self.limits.time_management_timer = match self.board.current_turn {
             Color::White => {
@@ -154,9 +200,17 @@ impl Search {
 
             let pv = self.get_pv(depth);
             self.log_uci_info(depth, Some(start.elapsed().as_millis()), &pv);
+            #[cfg(rce_verif)]
+            if depth == 1 {
+                verif::schedule_point("FIRST_ITERATION");
+            }
         }
 
+        #[cfg(rce_verif)]
+        verif::schedule_point("BEFORE_BESTMOVE");
         self.log(format!("bestmove {}", self.info.best_move.unwrap()).as_str());
+        #[cfg(rce_verif)]
+        verif::schedule_point("AFTER_BESTMOVE");
     }
 
     /// Initializes the alpha-beta search and returns the best move found
@@ -262,6 +316,19 @@ impl Search {
 
         // Don't save incomplete searches
         if self.is_running() && !self.limits_exceeded(start) {
+            #[cfg(rce_verif)]
+            verif::observe(
+                self.board.zkey.verif_u64(),
+                &TTEntry {
+                    score: alpha,
+                    depth,
+                    bound: Bounds::Exact,
+                    best_ply,
+                },
+                self.info.nodes,
+                self.limits.nodes,
+                self.is_running(),
+            );
             TRANSPOSITION_TABLE
                 .write()
                 .expect("Transposition table is poisoned! Unable to write new entry.")
@@ -323,6 +390,14 @@ impl Search {
 
         if self.board.position_reached(self.board.zkey) {
             return 0; // Avoid threefold repetition at first repeitition
+        }
+
+        #[cfg(rce_verif)]
+        if verif::cache_off() {
+            TRANSPOSITION_TABLE
+                .write()
+                .expect("Transposition table is poisoned! Unable to clear.")
+                .clear();
         }
 
         // Check if we have more information in the TTable than we have already reached in this search
@@ -412,6 +487,19 @@ impl Search {
 
             // Move is too good, opponent will not allow the game to reach this position
             if score >= beta {
+                #[cfg(rce_verif)]
+                verif::observe(
+                    self.board.zkey.verif_u64(),
+                    &TTEntry {
+                        score,
+                        depth,
+                        bound: Bounds::Lower,
+                        best_ply: mv,
+                    },
+                    self.info.nodes,
+                    self.limits.nodes,
+                    self.is_running(),
+                );
                 TRANSPOSITION_TABLE
                     .write()
                     .expect("Transposition table is poisoned! Unable to write new entry.")
@@ -445,6 +533,23 @@ impl Search {
             return 0; // Stalemate
         }
 
+        #[cfg(rce_verif)]
+        verif::observe(
+            self.board.zkey.verif_u64(),
+            &TTEntry {
+                score: alpha,
+                depth,
+                bound: if alpha <= alpha_start {
+                    Bounds::Upper
+                } else {
+                    Bounds::Exact
+                },
+                best_ply,
+            },
+            self.info.nodes,
+            self.limits.nodes,
+            self.is_running(),
+        );
         TRANSPOSITION_TABLE
             .write()
             .expect("Transposition table is poisoned! Unable to write new entry.")
@@ -770,6 +875,19 @@ impl Search {
     /// ```
     pub fn is_running(&self) -> bool {
         self.running.load(Ordering::Relaxed)
+    }
+}
+
+#[cfg(rce_verif)]
+impl Search {
+    /// Verification hook: (best move, best score, nodes, seldepth) after a search.
+    pub fn verif_result(&self) -> (Option<Ply>, Option<Score>, NodeCount, Depth) {
+        (
+            self.info.best_move,
+            self.info.best_score,
+            self.info.nodes,
+            self.info.seldepth,
+        )
     }
 }
 
